@@ -951,6 +951,11 @@ def _load_data(rec, context):
 
         result.add_component(comp, cid)
 
+        # Links that do not save their target (e.g. arithmetic expressions)
+        # come back with an anonymous target; it is always the component's ID.
+        if isinstance(comp, DerivedComponent) and comp.link.get_to_id() is not cid:
+            comp.link.set_to_id(cid)
+
     assert result._world_component_ids == []
 
     coord = [c for c in comps if isinstance(c[1], CoordinateComponent)]
